@@ -152,13 +152,17 @@ def split_set_cookie(line):
     return pieces[0], [p.strip().lower() for p in pieces[1:]]
 
 
-def check_cookie(ctx, name, value, kw, where):
-    case = {"name": name, "value": value, "kwargs": kw, "hostile": where}
+def check_cookie(ctx, name, value, kw, where, via="set_cookie"):
+    case = {"name": name, "value": value, "kwargs": kw, "hostile": where, "via": via}
 
     def factory(ns):
         r = ns.PlainTextResponse("x")
         if value is None:
             r.delete_cookie(name)
+        elif via == "attribute":
+            # the queued Cookie object is public (response.cookies): its name / value assigned after construction
+            r.set_cookie("plain", "plain", **kw)
+            r.cookies[-1].name, r.cookies[-1].value = name, value
         else:
             r.set_cookie(name, value, **kw)
         return r
@@ -314,11 +318,13 @@ def run(ctx):
             check_cookie(ctx, "sid", text, kw, "value")
             check_cookie(ctx, text, "v", kw, "name")
             check_cookie(ctx, text, "", kw, "name")      # empty value (set_cookie(name) default)
+            check_cookie(ctx, "sid", text, kw, "value", via="attribute")
+            check_cookie(ctx, text, "v", kw, "name", via="attribute")
             check_cookie(ctx, text, None, {}, "name")    # delete_cookie(name)
             check_redirect(ctx, "/next?x=" + text, False)
             check_redirect(ctx, "http://example.com/" + text, rng.random() < 0.3)
             check_redirect(ctx, rng.choice(["https://example.org", "//host", "http://u@h", ""]) + text + rng.choice(["", "/p", "?q"]), False)
-            for _ in range(7):
+            for _ in range(9):
                 ctx.case_enum(nt)
     ctx.exhaustive = True
     ctx.extra["exhaustive_bound"] = (f"all strings of length <={top} over {len(SPECIAL)} special characters through 8 mutation paths (value and name); "
@@ -349,7 +355,7 @@ def replay(ctx, case):
     if "path" in case:
         check_mutation(ctx, case["path"], case["key"], case["value"], case.get("hostile", "value"))
     elif "name" in case:
-        check_cookie(ctx, case["name"], case["value"], case["kwargs"], case.get("hostile", "value"))
+        check_cookie(ctx, case["name"], case["value"], case["kwargs"], case.get("hostile", "value"), case.get("via", "set_cookie"))
     elif "target" in case:
         check_redirect(ctx, case["target"], case["as_url_object"])
     else:
